@@ -164,70 +164,13 @@ func zzWithPrefix(prefix string, rest []byte) []byte {
 	return in
 }
 
-//verif:harness property=C37 mode=bv unwind=40 lens=0..2 thorough_lens=0..3 steps=40000000
-func ZZ_C37_Lex_LLEN() {
-	zzLexAndCheck(zzNondetBytes(LEN))
-}
-
-//verif:harness property=C37 mode=bv unwind=40 lens=1..2 thorough_lens=1..3 steps=40000000
-func ZZ_C37_LexInTemplate_LLEN() {
-	zzLexAndCheck(zzWithPrefix("\"\\(", zzNondetBytes(LEN)))
-}
-
-//verif:harness property=C37 mode=bv unwind=40 lens=1..2 thorough_lens=1..3 steps=40000000
-func ZZ_C37_LexInBlockComment_LLEN() {
-	zzLexAndCheck(zzWithPrefix("/*", zzNondetBytes(LEN)))
-}
-
-//verif:harness property=C37 mode=bv unwind=40 lens=1..2 thorough_lens=1..3 steps=40000000
-func ZZ_C37_LexInString_LLEN() {
-	zzLexAndCheck(zzWithPrefix("\"", zzNondetBytes(LEN)))
-}
-
-//verif:harness property=C37 mode=bv unwind=40 lens=1..2 thorough_lens=1..3 steps=40000000
-func ZZ_C37_LexAfterZero_LLEN() {
-	zzLexAndCheck(zzWithPrefix("0", zzNondetBytes(LEN)))
-}
-
-// Characters of 2..4 bytes and invalid bytes: every string of 3 (thorough 4) bytes >= 0x80, alone,
-// in a line comment, in a string and in a block comment.
-//
-//verif:harness property=C37 mode=bv unwind=40 lens=3..3 thorough_lens=3..4 steps=40000000
-func ZZ_C37_LexNonASCII_LLEN() {
-	prefixes := [4]string{"", "//", "\"", "/*"}
-	suffixes := [4]string{"", "\nx", "\" x", "*/x"}
-	k := zzChoice(4)
-	b := zzNondetBytes(LEN)
-	for _, c := range b {
-		zzAssume(c >= 0x80)
-	}
-	zzLexAndCheck(append(zzWithPrefix(prefixes[k], b), suffixes[k]...))
-}
-
-//verif:harness property=C37 mode=bv unwind=40 tier=thorough lens=1..2 thorough_lens=1..3 steps=40000000
-func ZZ_C37_LexInLineComment_LLEN() {
-	zzLexAndCheck(zzWithPrefix("//", zzNondetBytes(LEN)))
-}
-
-//verif:harness property=C37 mode=bv unwind=40 tier=thorough lens=1..2 thorough_lens=1..3 steps=40000000
-func ZZ_C37_LexAfterFraction_LLEN() {
-	zzLexAndCheck(zzWithPrefix("1.", zzNondetBytes(LEN)))
-}
-
-//verif:harness property=C37 mode=bv unwind=40 tier=thorough lens=1..2 thorough_lens=1..3 steps=40000000
-func ZZ_C37_LexAfterArrow_LLEN() {
-	zzLexAndCheck(zzWithPrefix("<-", zzNondetBytes(LEN)))
-}
-
-// The pooled lexer: lexing B after an arbitrary earlier text A (whose lexer went back to the pool)
-// yields exactly the token stream a fresh lexer yields.
-//
-//verif:harness property=C37 mode=bv unwind=40 lens=1..1 thorough_lens=1..2 steps=40000000
-func ZZ_C37_LexPooled_LLEN() {
+// zzPooled: see ZZ_C37_LexPooled.
+func zzPooled(free []byte) {
 	earlier := [6]string{"\"\\(", "\"\\((", "/* a", "a\n\nb", "\x80", "0."}
 	a := []byte(earlier[zzChoice(6)])
-	b := zzNondetBytes(LEN)
-	var t1, t2 [LEN + 3]Token
+	openers := [2]string{"", "\"\\("}
+	b := zzWithPrefix(openers[zzChoice(2)], free)
+	var t1, t2 [10]Token
 	n1, n2 := 0, 0
 	out := zzCatch(func() any {
 		fresh, err := Lex(b, nil)
@@ -242,6 +185,11 @@ func ZZ_C37_LexPooled_LLEN() {
 			}
 		}
 		first, _ := Lex(a, nil)
+		for i := 0; i < len(a)+2; i++ {
+			if first.Next().Type == TokenEOF {
+				break
+			}
+		}
 		first.Reclaim()
 		reused, err := Lex(b, nil)
 		if err != nil {
@@ -267,4 +215,78 @@ func ZZ_C37_LexPooled_LLEN() {
 	for i := 0; i < n1; i++ {
 		zzAssert("same-token-as-a-fresh-lexer", t1[i].Type == t2[i].Type && t1[i].Range == t2[i].Range)
 	}
+}
+
+//verif:harness property=C37 mode=bv unwind=40 lens=0..2 thorough_lens=0..3 steps=40000000
+func ZZ_C37_Lex_LLEN() {
+	zzLexAndCheck(zzNondetBytes(LEN))
+}
+
+//verif:harness property=C37 mode=bv unwind=40 lens=1..2 thorough_lens=1..2 steps=40000000
+func ZZ_C37_LexInTemplate_LLEN() {
+	zzLexAndCheck(zzWithPrefix("\"\\(", zzNondetBytes(LEN)))
+}
+
+//verif:harness property=C37 mode=bv unwind=40 lens=1..2 thorough_lens=1..2 steps=40000000
+func ZZ_C37_LexInBlockComment_LLEN() {
+	zzLexAndCheck(zzWithPrefix("/*", zzNondetBytes(LEN)))
+}
+
+//verif:harness property=C37 mode=bv unwind=40 lens=1..2 thorough_lens=1..2 steps=40000000
+func ZZ_C37_LexInString_LLEN() {
+	zzLexAndCheck(zzWithPrefix("\"", zzNondetBytes(LEN)))
+}
+
+//verif:harness property=C37 mode=bv unwind=40 lens=1..2 thorough_lens=1..2 steps=40000000
+func ZZ_C37_LexAfterZero_LLEN() {
+	zzLexAndCheck(zzWithPrefix("0", zzNondetBytes(LEN)))
+}
+
+// Characters of 2..4 bytes and invalid bytes: every string of 3 (thorough 4) bytes >= 0x80, alone,
+// in a line comment, in a string and in a block comment.
+//
+//verif:harness property=C37 mode=bv unwind=40 lens=3..3 thorough_lens=3..4 steps=40000000
+func ZZ_C37_LexNonASCII_LLEN() {
+	prefixes := [4]string{"", "//", "\"", "/*"}
+	suffixes := [4]string{"", "\nx", "\" x", "*/x"}
+	k := zzChoice(4)
+	b := zzNondetBytes(LEN)
+	for _, c := range b {
+		zzAssume(c >= 0x80)
+	}
+	zzLexAndCheck(append(zzWithPrefix(prefixes[k], b), suffixes[k]...))
+}
+
+//verif:harness property=C37 mode=bv unwind=40 tier=thorough lens=1..2 thorough_lens=1..2 steps=40000000
+func ZZ_C37_LexInLineComment_LLEN() {
+	zzLexAndCheck(zzWithPrefix("//", zzNondetBytes(LEN)))
+}
+
+//verif:harness property=C37 mode=bv unwind=40 tier=thorough lens=1..2 thorough_lens=1..2 steps=40000000
+func ZZ_C37_LexAfterFraction_LLEN() {
+	zzLexAndCheck(zzWithPrefix("1.", zzNondetBytes(LEN)))
+}
+
+//verif:harness property=C37 mode=bv unwind=40 tier=thorough lens=1..2 thorough_lens=1..2 steps=40000000
+func ZZ_C37_LexAfterArrow_LLEN() {
+	zzLexAndCheck(zzWithPrefix("<-", zzNondetBytes(LEN)))
+}
+
+// The pooled lexer: lexing B after an earlier text A (read to its end, then given back to the pool)
+// yields exactly the token stream a fresh lexer yields.  A is one of six texts that leave mode,
+// bracket count, line/column, cursor and tokens behind; B is "" or a string-template opener followed
+// by LEN free bytes (quick: from 12 mode-sensitive characters; thorough: any byte).
+//
+//verif:harness property=C37 mode=bv unwind=40 lens=2..2 thorough_lens=2..2 steps=40000000
+func ZZ_C37_LexPooled_LLEN() {
+	free := zzNondetBytes(LEN)
+	for _, c := range free {
+		zzAssume(c == '\\' || c == '(' || c == ')' || c == '"' || c == '/' || c == '*' || c == 'a' || c == '\n' || c == '0' || c == '.' || c == ' ' || c == 0xC3)
+	}
+	zzPooled(free)
+}
+
+//verif:harness property=C37 mode=bv unwind=40 tier=thorough lens=2..2 thorough_lens=2..2 steps=40000000
+func ZZ_C37_LexPooledAnyByte_LLEN() {
+	zzPooled(zzNondetBytes(LEN))
 }
